@@ -309,3 +309,40 @@ func (fc *FuncCtx) libraryCall(st *State, fn *types.Func, recv *Val, args []Val,
 	}
 	return Val{}, false
 }
+
+// lookupFM finds a field or method by name; unexported names are looked up in the package that declares
+// the (possibly embedded) type, so that contracts can name the representation of types of other packages.
+func lookupFM(t types.Type, pkg *types.Package, name string) (types.Object, []int, bool) {
+	obj, idx, ind := types.LookupFieldOrMethod(t, true, pkg, name)
+	if obj != nil {
+		return obj, idx, ind
+	}
+	seen := map[*types.Package]bool{}
+	var try func(tt types.Type, depth int) (types.Object, []int, bool)
+	try = func(tt types.Type, depth int) (types.Object, []int, bool) {
+		if depth > 4 || tt == nil {
+			return nil, nil, false
+		}
+		tt = types.Unalias(tt)
+		if p, ok := tt.Underlying().(*types.Pointer); ok {
+			tt = types.Unalias(p.Elem())
+		}
+		if n, ok := tt.(*types.Named); ok && n.Obj().Pkg() != nil && !seen[n.Obj().Pkg()] {
+			seen[n.Obj().Pkg()] = true
+			if o, i, d := types.LookupFieldOrMethod(t, true, n.Obj().Pkg(), name); o != nil {
+				return o, i, d
+			}
+		}
+		if st, ok := tt.Underlying().(*types.Struct); ok {
+			for i := 0; i < st.NumFields(); i++ {
+				if st.Field(i).Embedded() {
+					if o, ix, d := try(st.Field(i).Type(), depth+1); o != nil {
+						return o, ix, d
+					}
+				}
+			}
+		}
+		return nil, nil, false
+	}
+	return try(t, 0)
+}
